@@ -91,7 +91,14 @@ def save_load_rounded(E, s):
 @scenario
 def copies(E, s):
     tn = E.tn
-    x, xc = tt_input(E, 'x', s['N'], s['R'], s['dtype'], s.get('M'))
+    if s.get('aliased'):
+        # an object whose cores are different views of one storage (same start address and shape, other strides)
+        n = s['N'][0]
+        Mt = E.tensor('m', [n, n], s['dtype'])
+        x = E.tt.rank1TT([Mt, Mt.t()] + ([Mt] if s['aliased'] == 3 else []))
+        xc = list(x.cores)
+    else:
+        x, xc = tt_input(E, 'x', s['N'], s['R'], s['dtype'], s.get('M'))
     if s.get('presliced'):
         # the object being copied is itself a view: ranges starting at a non-zero index / strided ranges in every mode
         key = tuple(slice(1, None) if n >= 2 else slice(None) for n in s['N']) if s['presliced'] == 'offset' else tuple(slice(None, None, 2) for n in s['N'])
